@@ -153,6 +153,8 @@ class Monitor:
         self.failed_delete = set()    # sessions whose deletion was rejected at some point
         self.ctr_lost = set()         # (lseid, pdr id) created by a modification: stored with ctrID 0, never allocated
         self.poisoned = {}            # (kind, id) -> session whose REJECTED deletion put the id back into its pool
+        self.rewritten = {}           # (table, match key) -> ctr_idx written by the MODIFY batch of a PDR created by a modification
+        self.cur_tables = []
         self.zero_released = set()    # counter cells put into the pool by the deletion of a session whose PDR carried them as the bogus ctrID
 
     def flag(self, i, sig, msg):
@@ -162,7 +164,11 @@ class Monitor:
     #  - an application id put back - or whose reference by the session was dropped, so that the deletion of another
     #    user of the filter puts it back - by a deletion that was then REJECTED, while that session is still live (F24), or
     #  - the ctrID 0 of a PDR created by a modification (sendUpdate allocates no counter), while that PDR is live,
-    #    or cell 0 after the deletion of such a session released it
+    #    or cell 0 after the deletion of such a session released it, or
+    #  - cell 0 named by a terminations entry that the MODIFY batch of a PDR created by a modification rewrote: the batch
+    #    is rejected as a whole (NOT_FOUND on the new PDR's sessions entry) but P4Runtime applies its other updates, and
+    #    the new PDR's terminations key equals that of an existing PDR when UP4 fell back to application id 0 because
+    #    its application-id pool was exhausted (the allocation error is dropped)
     def why(self, kind, ident, st, owner=None):
         live = {s["lseid"] for s in st["store"]}
         if kind in ("appcell", "sesscell") and owner is not None:
@@ -179,6 +185,10 @@ class Monitor:
                         return "pdr-created-by-modification-has-no-ctr"
             if ident in self.zero_released:
                 return "pdr-created-by-modification-has-no-ctr"
+            for tabs in (self.cur_tables, self.prev_tables):
+                for e in tabs:
+                    if int(e["p"].get("ctr_idx", "-1")) == ident and self.rewritten.get((e["t"], tuple(sorted(e["m"].items())))) == ident:
+                        return "entry-rewritten-by-pdr-created-in-modification"
         if self.poisoned.get((kind, ident)) in live:
             return "released-before-failed-delete"
         return None
@@ -227,6 +237,19 @@ class Monitor:
         events = self.pool_events(i, so, prev, st)
 
         # ---- history facts used to name the recorded shapes
+        self.cur_tables = so["tables"]
+        before_t = {(e["t"], tuple(sorted(e["m"].items()))): e for e in self.prev_tables}
+        for key in list(self.rewritten):
+            e = next((x for x in so["tables"] if (x["t"], tuple(sorted(x["m"].items()))) == key), None)
+            if e is None or int(e["p"].get("ctr_idx", "-1")) != self.rewritten[key]:
+                del self.rewritten[key]
+        if op == "mod" and step.get("c_pdrs"):
+            stored = {p["ctr"] for s_ in prev["store"] if s_["lseid"] == step["lseid"] for p in s_["rules"]["pdrs"]}
+            for e in so["tables"]:
+                key = (e["t"], tuple(sorted(e["m"].items())))
+                if e["t"].startswith("terminations") and key in before_t and e["p"].get("ctr_idx") == "0" and \
+                        before_t[key]["p"].get("ctr_idx") != "0" and int(before_t[key]["p"].get("ctr_idx", "-1")) in stored:
+                    self.rewritten[key] = 0
         if op == "del" and cause != ACCEPTED and step["lseid"] in live_sessions(prev) and step["lseid"] in live:
             # removeInternalApplicationIDAndGetP4rtEntry drops the session's reference - and, if it was the last one,
             # releases the id - BEFORE the DELETE batch is written; the rejected deletion keeps session and entries
